@@ -315,7 +315,7 @@ fn do_save(case: &Case, vals: &[f64], path: &str) -> Result<Result<(), String>, 
     })
 }
 
-fn check(case: &Case, cov: &mut Cov) -> CheckResult {
+pub fn check(case: &Case, cov: &mut Cov) -> CheckResult {
     let kind = kind_of(case);
     let vals = values(case, kind);
     let s = case.shape;
